@@ -185,6 +185,12 @@ def gen(tier, rng):
     yield dict(p=PID, op='sic', sc=[1, 2], cl=[], dtype='int64')
     yield dict(p=PID, op='unique', l=[], dtype='int64')
     yield dict(p=PID, op='flatten', d=[])
+    for g in ([5, 1], [2, 2], [4, 1, 4], [9], [3, 2, 1, 0]):          # a dictionary with exactly ONE group
+        yield dict(p=PID, op='flatten', d=[g])
+    # requested ids outside the range of the assignment dtype: they match nothing (no wrap-around onto small ids)
+    yield dict(p=PID, op='sic', sc=[0, 1, 0, 2], cl=[65536, 65537], dtype='uint16')
+    yield dict(p=PID, op='sic', sc=[0, 1, 0, 2], cl=[2 ** 32, 1], dtype='int32')
+    yield dict(p=PID, op='sic', sc=[0, 1, 0, 2], cl=[2 ** 32 + 2, 2 ** 16], dtype='uint32')
     for lookup in itertools.permutations([0, 2, 3, 7, 11], 3):
         for arr in itertools.product(lookup, repeat=3):
             yield dict(p=PID, op='index_of', arr=list(arr), lookup=list(lookup))
